@@ -26,12 +26,24 @@ RULE = ("segment tables of 1..6 chromosomes (either naming style, any order) x 1
         "filters as list or tuple, the caller's list required to come back unchanged; do_call through the API with ONE "
         "filter and method none (ci|sem), clonal, threshold/clonal with purity 0.3..0.95 or 1.0, a baf column in the table "
         "(cn1/cn2 derived by do_call), the un-filtered call with the same arguments entering the model as the table; "
-        "non-trivial = some run of >= 2 mergeable neighbours exists; distinct by hash")
+        "ROUND 4 (ops filter_chain / do_call_pipe, the model's Filt.run / runChain / doCallFiltersE): chains of 1..3 filters "
+        "(repeats allowed) applied directly, segfilters.F1 then F2 ..., on tables whose optional column groups cn / cn1+cn2 / "
+        "ci_lo+ci_hi / sem are present or absent (require_column refusals, the columns a squash drops), 30 % with missing "
+        "(NaN) ci / sem values in a present column; `chain-amp` tables of amplified / deleted runs with unequal cn and weights "
+        "from {0, 1, 2} (exact half-weight ties: the weighted-median cn of an ampdel run is often k + 1/2) through "
+        "ampdel->cn, cn->ampdel, ampdel, ampdel->cn->ampdel; do_call(method threshold | none) with ANY filter list: both "
+        "ci and sem (refused), repeated names, method none with a cn-based filter (refused); "
+        "non-trivial = some run of >= 2 mergeable neighbours exists (or the call is refused); distinct by hash")
 EXHAUSTIVE = {"quick": False, "thorough": False}
 ASSUMPTIONS = ["rows grouped by chromosome (each chromosome's rows contiguous; the chromosomes in any order)",
                "row labels: the command line and batch hand over tables labelled 0..n-1; for tables with other labels (filtered "
                "subsets, repeated labels) only `cn` and do_call's reset of repeated labels before the post-call filters are "
                "checked until the open defect proposed_fixes/C14-filter-row-labels.md is repaired in /repo (ci/sem/ampdel lose rows there)",
+               "cn present (not NaN) wherever a cn-based filter reads it -- do_call writes integer calls; ci / sem may be missing (NaN: neutral)",
+               "needs proposed_fixes/C14-fractional-levels-merged.diff applied to /repo (enumerate_changes counts the changes): until "
+               "then the corpus witness `corpus-fractional-level` and the `chain-amp` cases report chain_runs_squashed",
+               "where the property's wording itself is a refusal (a required column missing, e.g. a list with both ci and sem) no spec "
+               "clause is evaluated: the refusal and the filter it names are compared with the model only",
                "the weighted median of unequal cn values inside an ampdel run is computed with C19's model of weighted_median on the "
                "pairs sorted by value (tie order unobservable: C19 wmedian_tie_order_unobservable)"]
 TRUSTED_EXTRA = ["pandas groupby(sort=False)/apply ordering, np.average"]
